@@ -57,7 +57,7 @@ PROPS = {
         'trusted_base': COMMON_TB + ['CBMC floating-point semantics for f64 comparison, `as i64` and to_bits (bit-precise; f64 % is not used by the contracted code)'],
         'assumptions': [
             'ToInt32/ToUint32 clause only: decimal printing (number_to_string), literal / Number() parsing and toFixed/toPrecision/toExponential/toString(radix) are NOT verified',
-            'the link from to_int32/to_uint32 to the 13 operator sites in execute_op is a syntactic side obligation + native replay battery (not a proof)',
+            'the link from to_int32/to_uint32 to the 13 operator sites in execute_op, the three compiler operator tables (binary, compound assignment, enum initialisers) and parseInt\'s radix is a syntactic side obligation + native replay battery (testing, not a proof)',
         ],
         'explanation': 'Kani contract on the real value::to_uint32 / to_int32 for all 2^64 f64 bit patterns against an integer-only specification of '
                        '"truncate toward zero, then wrap modulo 2^32"; loop-free, hence complete.',
@@ -83,12 +83,14 @@ PROPS = {
         'assumptions': [
             'caller discipline in compile_*: callers free only registers they own and never use a register after freeing it (unverified)',
             'instruction count <= u32::MAX is NOT assumed: the jump-width clauses are stated conditionally (target <= u32::MAX ==> exact)',
-            'RegisterAllocator::restore: contract assumed inside the Verus unit, cross-checked by a BOUNDED Kani harness only',
-            'opaque stand-ins for JsError, JsString, FxHashMap (values only moved around by the contracted code)',
+            'RegisterAllocator::restore is proved in the Verus unit modulo the trusted std contract of Vec::retain (wrapper R10, cross-checked by BOUNDED Kani harnesses that run the real std code)',
+            'opaque stand-ins for JsError and JsString (cheap_clone returns an equal string); FxHashMap modelled as a finite map whose key equality is content equality (trusted); f64::to_bits as an uninterpreted view; Option::is_none_or std contract assumed',
+            'BytecodeBuilder::emit_load_number is under no contract (float logic + hash-map insertion: outside both verifiers)',
+            'call sites in compile_* are covered by the side battery only (410+ programs; testing, not proof); one known finding: the constant-pool limit is cumulative per chunk',
         ],
         'explanation': 'Verus contracts on the real text of RegisterAllocator and BytecodeBuilder (abstract view = set of handed-out registers; '
                        'representation invariant; exact constant indices; exact jump operands), by induction over the invariant for every call sequence.',
-        'not_carried': 'that compile_* callers respect the allocator protocol; add_string/add_number de-duplication maps',
+        'not_carried': 'proof that compile_* callers respect the allocator protocol (side battery only); emit_load_number',
     },
     'C20': {
         'verus': [BUILDER_VERUS, {'unit': 'induction', 'rlimit': 20}],
@@ -124,7 +126,8 @@ PROPS = {
         'obl_filter': C20_BUILDER,
         'trusted_base': COMMON_TB,
         'assumptions': [
-            'span-recording layer only: parser token->AST spans, compile_* calling set_span with the node being compiled, build_stack_trace and error formatting are NOT verified',
+            'span-recording layer only: parser token->AST spans, compile_* calling set_span with the node being compiled, build_stack_trace and error formatting are NOT verified; they are linked to the layer only by the side battery (280 fault-planted programs x layouts; testing, not proof)',
+            'get_source_location: std contract of binary_search_by_key trusted (wrapper R9), cross-checked by BOUNDED Kani harnesses',
             'fewer than 2^32 lines/columns, byte offsets below 2^62 (assumed in the advance harness)',
             'line = 1 + terminators consumed, column = 1 + characters since the last terminator: induction over the advance step contract is a machine-checked pure-spec Verus lemma; the transcription of the Kani postcondition is the unchecked link',
             'Option::is_none_or: assumed std contract (assume_specification)',
